@@ -11,6 +11,7 @@ def inputs_json(rnd, n):
         out.append(text)
         for _ in range(3):
             out.append(gen_json.mutate(rnd, text))
+    out += gen_json.boundary_json(rnd, max(60, n // 12))
     while len(out) < n:
         k = rnd.random()
         if k < 0.5:
